@@ -882,15 +882,24 @@ func c11Same(a, b c11Out) bool {
 	return a.R == "ok" && b.R == "ok" && a.S == b.S
 }
 
-// c11DivergeFinding classifies a failed termination clause: known finding D29 covers exactly the
+// c11DivergeFinding classifies a failed termination clause.  Known finding D29 covers exactly the
 // tables with a value that is not delimiter-balanced (such values can glue into ever-new
-// placeholders; proved divergent in Lean: Ytk.C11.resolve_diverges_counterexample). For tables whose
-// values are all balanced termination is a theorem (resolve_terminates_balanced_partial), so a
-// budget overrun there is an unlisted violation.
+// placeholders; proved divergent in Lean: Ytk.C11.resolve_diverges_counterexample).  Known finding
+// D31 covers the tables whose values are all balanced but of which one carries, as plain text, a
+// character of a multi-character delimiter ("$" or "{" under "${"): two such halves coming out of
+// different values are glued into a real delimiter when the resolved key text is scanned again
+// (Ytk.C11.resolve_diverges_relex_counterexample).  For tables with balanced values without such
+// characters termination is a theorem (resolve_terminates_balanced_relex_partial), so a budget
+// overrun there is an unlisted violation.
 func c11DivergeFinding(d [3]string, tbl map[string]string) string {
 	for _, v := range tbl {
 		if !c11Balanced(c11Lex(d, v)) {
 			return "D29-unbalanced-values-diverge"
+		}
+	}
+	for _, v := range tbl {
+		if c11Hazard(d, c11Lex(d, v)) {
+			return "D31-glued-delimiter-halves-diverge"
 		}
 	}
 	return ""
